@@ -499,7 +499,11 @@ class DDPG(RLAlgorithm):
                     if swap_channels:
                         obs = obs_channels_to_first(obs)
                     action = self.get_action(obs, training=False)
+                    if not hasattr(env, "num_envs"):
+                        action = action[0]
+
                     obs, reward, done, trunc, _ = env.step(action)
+                    done, trunc = np.atleast_1d(done), np.atleast_1d(trunc)
                     step += 1
                     scores += np.array(reward)
                     for idx, (d, t) in enumerate(zip(done, trunc)):
